@@ -358,6 +358,10 @@ func (p c04) RunBatch(c *fw.Ctx) {
 		}
 		c.Count("statistical_rand_distinct", int64(len(seen)))
 	}
+	// every extension wrapped in a function, called before and after the world outside the interpreter changes (fresh child processes)
+	if c.Batch == 1%c.NBatches {
+		p.sweep(c, "")
+	}
 	// the shipped example and test programs, and mutations of them that still parse, as single inputs
 	for fi, src := range corpusPrograms() {
 		if fi%c.NBatches != c.Batch {
@@ -382,6 +386,11 @@ func (p c04) RunBatch(c *fw.Ctx) {
 func (p c04) ReplayCase(c *fw.Ctx, input json.RawMessage) {
 	InitGrol(nil)
 	registerHarnessExtensions()
+	var sw c04SweepCase
+	if json.Unmarshal(input, &sw) == nil && sw.Check == "extension-sweep" {
+		p.sweep(c, sw.Ext)
+		return
+	}
 	var cs c04Case
 	if err := json.Unmarshal(input, &cs); err != nil {
 		return
